@@ -392,6 +392,12 @@ func (h *vHist) observeRepo(r *Repository) string {
 
 // observeRepoN observes only the first n submitted headers.
 func (h *vHist) observeRepoN(r *Repository, n int) string {
+	return h.observeRepoOpt(r, n, true)
+}
+
+// observeRepoOpt: withPrev includes PreviousHash, which answers for headers held in memory only
+// and therefore legitimately changes to "unknown" when Clean prunes.
+func (h *vHist) observeRepoOpt(r *Repository, n int, withPrev bool) string {
 	var b bytes.Buffer
 	tip := h.indexOfHash(r.LastHash())
 	fmt.Fprintf(&b, "H%d T%d W%s|", r.Height(), tip, r.AccumulatedWork().Text(16))
@@ -415,6 +421,9 @@ func (h *vHist) observeRepoN(r *Repository, n int) string {
 		pi := -1
 		if ph != nil {
 			pi = h.indexOfHash(*ph)
+		}
+		if !withPrev {
+			pi, pht = -2, -2
 		}
 		fmt.Fprintf(&b, "%d:%d/%d,%t,%t/%d,%t,%t/%d,%d ", i, ht, ch, longest, cerr == nil, gh, glongest, gerr == nil, pi, pht)
 	}
@@ -528,8 +537,10 @@ func (h *vHist) longState(n int) []int {
 			verifAssert(false, "long-state-setup-refused")
 		}
 		idx = append(idx, i)
-		if k == 1 {
-			// an old one-header side branch low in the chain (far below the retained depth later)
+		if k == 1 && verifParam("lowside", 1) == 1 {
+			// an old one-header side branch low in the chain (far below the retained depth later);
+			// the repository keeps everything above the lowest fork point in memory, so runs that are
+			// about history served from header files switch it off ("lowside": 0)
 			if l, err := h.scripted(idx[0], 0); err == nil {
 				idx = append(idx, l)
 			}
@@ -539,13 +550,21 @@ func (h *vHist) longState(n int) []int {
 	if err := h.repo.Clean(h.ctx); err != nil {
 		verifAssert(false, "long-state-clean-failed")
 	}
-	s1, err := h.scripted(h.parent[p], 0)
-	if err == nil {
-		idx = append(idx, s1)
-		s2, err := h.scripted(s1, 0)
-		if err == nil {
-			idx = append(idx, s2)
+	// a recent side branch forking below the tip: two headers (it overtakes: the best chain is then
+	// an unconsolidated side branch), or with "sidepick" any of none / one header (a tie, the main
+	// branch stays best) / two headers
+	sideLen := 2
+	if verifParam("sidepick", 0) == 1 {
+		sideLen = pick("recent-side-length", 3)
+	}
+	at := h.parent[p]
+	for k := 0; k < sideLen; k++ {
+		s, err := h.scripted(at, 0)
+		if err != nil {
+			break
 		}
+		idx = append(idx, s)
+		at = s
 	}
 	return idx
 }
@@ -560,7 +579,12 @@ func (h *vHist) setupState() int {
 	case verifParam("rich", 0) == 2:
 		h.lateState()
 	case verifParam("long", 0) > 0:
-		h.longState(verifParam("long", 0))
+		n := verifParam("long", 0)
+		if lo := verifParam("longmin", 0); lo > 0 && lo < n {
+			// every chain length in [longmin, long]: file and prune boundaries fall differently
+			n = lo + pick("chain-length", n-lo+1)
+		}
+		h.longState(n)
 	}
 	if verifParam("saved", 0) == 1 {
 		// the constructed state has been persisted once: storage holds its files
